@@ -73,7 +73,7 @@ def run(ctx):
 
     if ctx.replay is not None:
         syn = [ctx.replay] if ctx.replay.get("synthetic") else []
-        cfgs = [] if (ctx.replay.get("synthetic") or "swap_scenario" in ctx.replay) else [ctx.replay]
+        cfgs = [] if (ctx.replay.get("synthetic") or ctx.replay.get("large") or "swap_scenario" in ctx.replay) else [ctx.replay]
     else:
         syn = [c for c in ctx.corpus if c.get("synthetic")]
         for _ in range(150 if ctx.quick() else 2000):
@@ -141,6 +141,42 @@ def run(ctx):
         ctx.case(("syn", K, tuple(labels), repr(c["rows"])), nontrivial=vals[2] > 1e-9,
                  sample={"K": K, "T": len(labels), "reported": got, "definition": vals[0], "deviation": vals[2]}
                  if len(ctx.samples) < 3 else None)
+
+    # ---------------- LARGE labellings: thousands of windows, window counts that are NOT multiples of the block sizes a
+    # slab-wise / vectorised rewrite would pick (1024, 4096), and one that is; direct oracle only
+    if ctx.replay is None or ctx.replay.get("large"):
+        import random as _pr
+        from fast_ticc import cluster_maintenance as cm
+        from fast_ticc.containers import arguments as _arguments, model_state as _ms
+        plans = [ctx.replay] if ctx.replay is not None else \
+            [{"large": True, "T": T_, "K": K_, "seed": ctx.rng.randrange(2 ** 31)}
+             for (T_, K_) in ([(1300, 2), (2500, 3), (4096, 2)] if ctx.quick() else
+                              [(1300, 2), (2500, 3), (4096, 2), (5000, 4), (1025, 2), (9001, 3)])]
+        for c in plans:
+            r_ = _pr.Random(c["seed"])
+            T_, K_ = c["T"], c["K"]
+            rs_ = np.random.RandomState(c["seed"] % 2 ** 31)
+            labels = []
+            cur = r_.randrange(K_)
+            while len(labels) < T_:
+                labels.extend([cur] * r_.randint(20, 400))
+                cur = (cur + 1 + r_.randrange(K_ - 1)) % K_ if K_ > 1 else cur
+            labels = labels[:T_]
+            for k in range(K_):
+                labels[k] = k
+            data = rs_.randn(T_, 2) + np.array([[3.0 * l, -2.0 * l] for l in labels])
+            ua = _arguments.UserArguments(sparsity_weight=0.1, iteration_limit=5, label_switching_cost=1.0, min_cluster_size=2,
+                                          min_meaningful_covariance=0, num_clusters=K_, num_processors=1, window_size=1,
+                                          biased_covariance=False)
+            st = _ms.ModelState.empty_model(ua, data)
+            st.point_labels = list(labels)
+            st = cm.update_all_cluster_statistics(st, data)
+            got = float(cmx.calinski_harabasz_index(data, st))
+            vals = ch_values(data, labels, K_)
+            if vals is not None:
+                which = judge(ctx, got, vals, c)
+                ctx.count("large_labellings:" + which)
+            ctx.case(("large", T_, K_), nontrivial=True)
 
     # ---------------- scripted runs that converge right after clusters exchanged windows while keeping their sizes:
     # the index must be computed for the members of the returned labelling
